@@ -43,12 +43,7 @@ class KernelError(Exception):
         self.where = where
 
 
-class Undef:
-    def __repr__(self):
-        return "UNDEF"
-
-
-UNDEF = Undef()
+UNDEF = sx.UNDEF
 
 
 class Arr:
@@ -341,7 +336,7 @@ class Run:
     """
 
     def __init__(self, mod, loop_bound=None, symbolic=True, rand=None, extern=None, prefix="k",
-                 while_true_cut=True):
+                 while_true_cut=True, split=True, hyps=None, feas_timeout_ms=2000):
         self.mod = mod if isinstance(mod, KModule) else module(mod)
         self.loop_bound = loop_bound
         self.symbolic = symbolic
@@ -356,6 +351,11 @@ class Run:
         self.directives = boundscheck_setting()
         self.while_true_cut = while_true_cut
         self.called = []
+        self.split = split
+        self.hyps = [h for h in (hyps or []) if h is not True]
+        self._solver = None
+        self.feas_timeout_ms = feas_timeout_ms
+        self._names_cache = {}
         self.stats = {"stmts": 0, "merges": 0}
 
     # ------------------------------------------------------------------ helpers
@@ -364,10 +364,38 @@ class Run:
         nm = f"{self.prefix}_{tag}{self.nfresh}"
         return z3.Int(nm) if kind == "int" else (z3.Real(nm) if kind == "real" else z3.Bool(nm))
 
+    def feasible(self, c):
+        """cheap satisfiability check of a path condition under the run's hypotheses"""
+        if c is True:
+            return True
+        if c is False:
+            return False
+        self.stats["feas"] = self.stats.get("feas", 0) + 1
+        if self._solver is None:
+            self._solver = z3.Solver()
+            self._solver.set("timeout", self.feas_timeout_ms)
+            for h in self.hyps:
+                self._solver.add(h)
+            self._nassum = 0
+        while self._nassum < len(self.assumptions):
+            a = self.assumptions[self._nassum]
+            if a is not True:
+                self._solver.add(a)
+            self._nassum += 1
+        self._solver.push()
+        self._solver.add(c)
+        r = str(self._solver.check())
+        self._solver.pop()
+        return r != "unsat"
+
     def event(self, kind, cond, node, guard):
         c = and_(guard, cond)
         if c is False:
             return
+        if self.symbolic and c is not True:
+            c = self.simp(c)
+            if c is False or not self.feasible(c):
+                return
         w = self.mod.where(node)
         if c is True and not self.symbolic:
             raise KernelError(kind, w)
@@ -504,12 +532,133 @@ class Run:
             if g is not False:
                 self.stmt(node, frame, g)
 
+    SPLIT_SIMPLE = ("SingleAssignmentNode", "CascadedAssignmentNode", "InPlaceAssignmentNode", "ExprStatNode",
+                    "IfStatNode")
+
     def stmt(self, s, frame, g):
         self.stats["stmts"] += 1
-        m = getattr(self, "s_" + type(s).__name__, None)
+        cn = type(s).__name__
+        m = getattr(self, "s_" + cn, None)
         if m is None:
-            raise Unsupported(f"statement {type(s).__name__} at {self.mod.where(s)}")
+            raise Unsupported(f"statement {cn} at {self.mod.where(s)}")
+        if self.split and self.symbolic:
+            if cn in self.SPLIT_SIMPLE:
+                sp = self.find_split(self.names_in(s, None), frame)
+            elif cn == "ForInStatNode":
+                sp = self.find_split(self.names_in(s, "iterator"), frame)
+            else:
+                sp = None
+            if sp is not None:
+                return self.split_stmt(s, frame, g, sp[0], sp[1])
         m(s, frame, g)
+
+    # ---- control splitting on small-domain integer variables --------------------------------
+    def names_in(self, node, attr):
+        key = (id(node), attr)
+        c = self._names_cache.get(key)
+        if c is not None:
+            return c
+        out = []
+        root = getattr(node, attr) if attr else node
+
+        def walk(n):
+            if type(n).__name__ == "NameNode":
+                if n.name not in out:
+                    out.append(n.name)
+            for ca in n.child_attrs:
+                ch = getattr(n, ca, None)
+                if isinstance(ch, list):
+                    for x in ch:
+                        if x is not None and hasattr(x, "child_attrs"):
+                            walk(x)
+                elif ch is not None and hasattr(ch, "child_attrs"):
+                    walk(ch)
+        if root is not None:
+            walk(root)
+        self._names_cache[key] = out
+        return out
+
+    def leaves_of(self, v, limit=12):
+        """v = nest of z3 If with integer-numeral leaves -> [(cond, int)] (distinct values) or None"""
+        if not (isinstance(v, z3.ArithRef) and z3.is_app(v) and v.decl().kind() == z3.Z3_OP_ITE):
+            return None
+        acc = {}
+        order = []
+
+        def rec(t, pc, depth):
+            if z3.is_int_value(t):
+                k = t.as_long()
+                if k not in acc:
+                    acc[k] = []
+                    order.append(k)
+                acc[k].append(and_(*pc))
+                return len(order) <= limit
+            if z3.is_app(t) and t.decl().kind() == z3.Z3_OP_ITE and depth < 40:
+                c = t.arg(0)
+                return rec(t.arg(1), pc + [c], depth + 1) and rec(t.arg(2), pc + [not_(c)], depth + 1)
+            return False
+        if not rec(v, [], 0):
+            return None
+        if len(order) < 2:
+            return None
+        return [(or_(*acc[k]), k) for k in order]
+
+    def find_split(self, names, frame):
+        for nm in names:
+            v = frame.env.get(nm)
+            if isinstance(v, z3.ArithRef):
+                lv = self.leaves_of(v)
+                if lv is not None:
+                    return nm, lv
+        return None
+
+    def simp(self, c):
+        if isinstance(c, z3.BoolRef):
+            return sx.conc(z3.simplify(c))
+        return c
+
+    def split_stmt(self, s, frame, g, nm, leaves):
+        self.stats["splits"] = self.stats.get("splits", 0) + 1
+        posts = []
+        for c, val in leaves:
+            gi = self.simp(and_(g, c))
+            frame.env[nm] = val
+            if gi is not False and not self.feasible(gi):
+                gi = False
+            if gi is not False:
+                self.stmt(s, frame, gi)
+            posts.append((c, frame.env[nm]))
+        out = posts[-1][1]
+        for c, r in reversed(posts[:-1]):
+            out = self.merge(c, r, out)
+        # normalise to a flat chain over distinct values with simplified, non-false conditions
+        lv = self.leaves_of(out, limit=64) if isinstance(out, z3.ArithRef) else None
+        if lv is not None:
+            lv = [(self.simp(c), v) for c, v in lv]
+            lv = [(c, v) for c, v in lv if c is not False]
+            if lv:
+                out = lv[-1][1]
+                for c, v in reversed(lv[:-1]):
+                    out = ite(c, v, out)
+        frame.env[nm] = out
+
+    def cond_split(self, node, frame, g):
+        """evaluate a loop condition, splitting on small-domain variables"""
+        if self.split and self.symbolic:
+            sp = self.find_split(self.names_in(node, None), frame)
+            if sp is not None:
+                nm, leaves = sp
+                saved = frame.env[nm]
+                res = False
+                for c, val in leaves:
+                    gi = self.simp(and_(g, c))
+                    if gi is False or not self.feasible(gi):
+                        continue
+                    frame.env[nm] = val
+                    res = or_(res, and_(c, self.cond_split(node, frame, gi)))
+                frame.env[nm] = saved
+                return res
+        return truth(self.ev(node, frame, g))
 
     def s_StatListNode(self, s, frame, g):
         self.block(s, frame, g)
@@ -693,7 +842,7 @@ class Run:
                 g0 = and_(g, not_(lp.brk), not_(frame.ret), not_(self.dead))
                 if g0 is False:
                     break
-                c = truth(self.ev(s.condition, frame, g0))
+                c = self.cond_split(s.condition, frame, g0)
                 gi = and_(g0, not_(self.dead), c)
                 if gi is False:
                     break
